@@ -43,3 +43,21 @@ package nodes
 //@   stream 1 step INM forward: stepErr == nil ==> len(OUTM) == old(len(OUTM)) + 1 && lastOutM() == lastInM() && len(OUT) == old(len(OUT))
 //@   ensures meta: ended ==> result != nil || len(OUTM) == len(INM)
 //@   ensures errprop: runErr != nil ==> result != nil
+
+// C18: the event-time buffer node. Records without an event time pass straight through; the others are buffered by
+// instant; a watermark W is forwarded, unchanged and in order, only after every buffered instant <= W has been
+// released (so no record at or below W can follow it); at the end of the stream everything is released.
+//@ func (*EventTimeBuffer).Run
+//@   assumes WatermarkMaxValue.ns == 9223372036854775807
+//@   stream 1 assumes len(IN) > 0 ==> lastIn().EventTime.ns <= 9223372036854775807
+//@   stream 1 invariant ri: bufRI(records) && 0 < addr(records) && addr(records) < frontier()
+//@   stream 1 invariant meta: len(OUTM) == len(INM)
+//@   stream 1 invariant bound: forallK(k, thas(records.tree, k) ==> k <= 9223372036854775807)
+//@   stream 1 step IN zero: stepErr == nil && lastIn().EventTime.ns == ZEROT() ==> len(OUT) == old(len(OUT)) + 1 && sameRec(lastOut(), lastIn()) && forallK(k, thas(records.tree, k) == old(thas(records.tree, k)))
+//@   stream 1 step IN buffered: lastIn().EventTime.ns != ZEROT() ==> len(OUT) == old(len(OUT)) && thas(records.tree, lastIn().EventTime.ns) && forallK(k, k != lastIn().EventTime.ns ==> thas(records.tree, k) == old(thas(records.tree, k)))
+//@   stream 1 step IN nometa: len(OUTM) == old(len(OUTM))
+//@   stream 1 step INM forward: stepErr == nil ==> len(OUTM) == old(len(OUTM)) + 1 && lastOutM() == lastInM()
+//@   stream 1 step INM released: stepErr == nil && lastInM().Type == 0 ==> forallK(k, thas(records.tree, k) ==> k > lastInM().Watermark.ns)
+//@   stream 1 step INM kept: forallK(k, k > lastInM().Watermark.ns || lastInM().Type != 0 ==> thas(records.tree, k) == old(thas(records.tree, k)))
+//@   ensures flush: result == nil ==> forallK(k, !thas(records.tree, k))
+//@   ensures errprop: runErr != nil ==> result != nil
